@@ -54,15 +54,15 @@ R = {
 """)),
  'R19-flow_cached-local': (['C04'], lambda: region('supp/scope.py','class flow_cached(object):','class Flow(object):', word('pending','open_resolutions'))),
  'R20-classobject-attrs-loop': (['C06'], lambda: sub('supp/name.py', """        attrs = {}
-        for b in reversed(self.bases):
-            attrs.update(b._attrs)
+        for table in reversed(self._ancestor_tables):
+            attrs.update(table)
         attrs.update(self._cls_attrs)
         return attrs
-""", """        table = {}
-        for base in self.bases[::-1]:
-            table.update(base._attrs)
-        table.update(self._cls_attrs)
-        return table
+""", """        merged = {}
+        for inherited in self._ancestor_tables[::-1]:
+            merged.update(inherited)
+        merged.update(self._cls_attrs)
+        return merged
 """)),
  'R21-pack_integer-reordered-equal-ranges': (['C14'], lambda: None),
  'R22-process-rename': (['C15'], lambda: region('supp/server.py','    def process(self','    def assist(self', word('e','exc'))),
